@@ -53,6 +53,7 @@ type Unit struct {
 	Modifies    []string // raw items; nil = inferred; "nothing"
 	HasMod      bool
 	ModInferred bool     // modifies = the inferred write set of the body, plus the listed items
+	Excludes    []string // type names / "globals": the inferred write footprint of the function contains no field of them
 	Lemmas      []Clause // closed formulas proved on their own (class "lemma"), e.g. injectivity of a cache key
 	Preserves   []string // type names: no field of any pre-existing object of these struct types changes
 	Ats         []AtSpec
@@ -119,7 +120,7 @@ func NewContracts() *Contracts {
 	return &Contracts{Units: map[string]*Unit{}, Specs: map[string]*SpecFunc{}, Ghosts: map[string]*GhostVar{}, GhostFields: map[string]map[string]*GhostField{}}
 }
 
-var clauseKeywords = map[string]bool{"lemma": true, "returns": true, "after": true, "preserves": true, "step": true, "exits": true, "at": true, "memoize": true, "pins": true, "visits": true, "requires": true, "ensures": true, "modifies": true, "invariant": true,
+var clauseKeywords = map[string]bool{"excludes": true, "lemma": true, "returns": true, "after": true, "preserves": true, "step": true, "exits": true, "at": true, "memoize": true, "pins": true, "visits": true, "requires": true, "ensures": true, "modifies": true, "invariant": true,
 	"decreases": true, "loop": true, "func": true, "spec": true, "define": true, "axiom": true, "ghost": true,
 	"opts": true, "pure": true, "end": true, "trusted": true}
 
@@ -254,6 +255,15 @@ func (c *Contracts) ParseFile(path, pkgPath string) error {
 				cur.Requires = append(cur.Requires, cl)
 			} else {
 				cur.Ensures = append(cur.Ensures, cl)
+			}
+		case "excludes":
+			if cur == nil {
+				return fmt.Errorf("%s:%d: excludes outside func", path, r.line)
+			}
+			for _, t := range splitTop(r.text) {
+				if t = strings.TrimSpace(t); t != "" {
+					cur.Excludes = append(cur.Excludes, t)
+				}
 			}
 		case "lemma":
 			if cur == nil {
